@@ -784,8 +784,18 @@ def check_prog(case, M):
             else:
                 st, q = guarded(lambda: dsl.parse_program(after, tr, consts), 20)
                 if st != "ok" or not (q == p):
-                    failures.append({"kind": "oracle", "what": "parse_program(str(p)) is not p after a constant was assigned a new value",
-                                     "detail": f"text={after!r} got {(st, str(q))}"})
+                    f = {"kind": "oracle", "what": "parse_program(str(p)) is not p after a constant was assigned a new value",
+                         "detail": f"text={after!r} got {(st, str(q))}"}
+                    # same decidable classifier as above: a primitive of p is shadowed by an earlier primitive
+                    # of the same name (open finding C15-F5; which instance comes first depends on the hash seed)
+                    dpa = dump_prog(p)
+                    def shadowed_a(d):
+                        if d[0] == "app":
+                            return any(shadowed_a(x) for x in d[1:])
+                        return d[0] == "P" and first.get(d[1]) != d[2]
+                    if shadowed_a(dpa):
+                        f["finding"] = "C15-F5"
+                    failures.append(f)
                     failing.append(before)
         finally:
             c.assign(old_value)
